@@ -1,6 +1,6 @@
 // Repro for finding decrypt/Decoder::decrypt/alg1A_aesv3 -- append to pdf/src/crypt.rs of a scratch copy of /repo:
 //   cat findings/aesv3_truncated_key_repro.rs >> <scratch>/pdf/src/crypt.rs
-//   cd <scratch> && CARGO_TARGET_DIR=/verif/.cache/native-target cargo test --offline -p pdf --lib verif_aesv3 -- --nocapture
+//   cd <scratch> && CARGO_TARGET_DIR=/tmp/decrypt_target cargo test --offline -p pdf --lib verif_aesv3 -- --nocapture
 #[cfg(test)]
 mod verif_aesv3_repro {
     use super::*;
